@@ -350,12 +350,14 @@ def applySite (d : Nat) (op : Nat → Nat → α) (A : Site α) : Site α :=
 
 For one value of `left` (the factors are those present after `self.orthogonalize(left)`): the number whose
 `.real` is stored in `result[left, left]`, then in `result[left, right]` for `right = left+1, …`.
-`op s t = operator[s, t]`. -/
+`op s t = operator[s, t]`.  Variant `repaired` (= /repo since commit 7ffda71): `dims=([1],[1])` first and
+`([0,2],[1,0])` last, i.e. the matrix element `⟨bra|O|ket⟩ = operator[bra, ket]`.  The variant found originally
+(`corrRowAsFound`) contracted `operator[ket, bra]`, i.e. the same code with `operatorᵀ`. -/
 
-/-- `accumulator[r, r'] = Σ_{l,s,t} A[l,s,r]·operator[s,t]·conj(A[l,t,r'])` (the first two `tensordot`s) -/
+/-- `accumulator[r, r'] = Σ_{l,s,t} A[l,s,r]·operator[t,s]·conj(A[l,t,r'])` (the first two `tensordot`s) -/
 def corrAcc0 (d : Nat) (op : Nat → Nat → α) (A : Site α) : Arr (Arr α) :=
   memo2 A.dr A.dr (fun r r' => sumTo A.dl (fun l => sumTo d (fun s => sumTo d (fun t =>
-    A.t s l r * op s t * conj (A.t t l r')))))
+    A.t s l r * op t s * conj (A.t t l r')))))
 
 /-- `accumulator.trace()` -/
 def corrTrace (n : Nat) (acc : Arr (Arr α)) : α := sumTo n (fun r => get2 acc r r)
@@ -365,9 +367,9 @@ def corrPartial (d : Nat) (acc : Arr (Arr α)) (B : Site α) : Arr (Arr (Arr (Ar
   memo4 d B.dr d B.dr (fun t b t' b' => sumTo B.dl (fun a => sumTo B.dl (fun a' =>
     get2 acc a a' * B.t t a b * conj (B.t t' a' b'))))
 
-/-- `tensordot(partial, operator, dims=([0, 2], [0, 1])).trace()` -/
+/-- `tensordot(partial, operator, dims=([0, 2], [1, 0])).trace()` -/
 def corrEntry (d : Nat) (op : Nat → Nat → α) (B : Site α) (p : Arr (Arr (Arr (Arr α)))) : α :=
-  sumTo B.dr (fun b => sumTo d (fun t => sumTo d (fun t' => get4 p t b t' b * op t t')))
+  sumTo B.dr (fun b => sumTo d (fun t => sumTo d (fun t' => get4 p t b t' b * op t' t)))
 
 /-- `tensor_trace(partial, 0, 2)` -/
 def corrNext (d : Nat) (B : Site α) (p : Arr (Arr (Arr (Arr α)))) : Arr (Arr α) :=
@@ -386,6 +388,10 @@ def corrRow (d : Nat) (op : Nat → Nat → α) : List (Site α) → List α
   | A :: rest =>
     let acc := corrAcc0 d op A
     corrTrace A.dr acc :: corrWalk d op rest acc
+
+/-- the variant found before commit 7ffda71: `dims=([1],[0])` / `([0,2],[0,1])`, i.e. `operatorᵀ` -/
+def corrRowAsFound (d : Nat) (op : Nat → Nat → α) (fs : List (Site α)) : List α :=
+  corrRow d (fun s t => op t s) fs
 
 /-! ### `MPS._from_state_amplitudes` (before truncation / normalisation) -/
 
